@@ -120,7 +120,7 @@ func solveObligation(o *Obligation, dir string, timeoutS int, all bool) {
 	}
 	// 3. undecided: one patient retry (3x the time limit) of the slice, then of the full query, before giving up -
 	// an obligation that only just misses the limit under load must not become an alarm
-	if winner == nil && !o.Cover && !o.NoRetry {
+	if winner == nil && !o.Cover && !o.NoRetry && os.Getenv("GOVC_FAST") == "" {
 		save := timeoutS
 		timeoutS *= 3
 		if o.Sliced != "" {
